@@ -159,11 +159,6 @@ func cmdCheck(args []string) int {
 	}
 	verboseObl = *verbose
 	out := checkProperty(c, p, known, *verif, !*noEvidence, start)
-	if *tier == "thorough" && !*noEvidence && out.exit == 0 {
-		if code := thoroughExtras(c, p, *verif); code != 0 {
-			return code
-		}
-	}
 	return out.exit
 }
 
@@ -248,6 +243,14 @@ func checkProperty(c *Ctx, p *Property, known *KnownFile, verifDir string, write
 	for _, v := range vacuous {
 		fmt.Fprintf(os.Stderr, "VACUOUS property=%s %s\n", p.ID, v)
 	}
+	var sensitivity map[string]any
+	if c.Tier == "thorough" && writeEvidence && out.exit == 0 {
+		var code int
+		sensitivity, code = thoroughExtras(c, p, verifDir)
+		if code != 0 {
+			out.exit = code
+		}
+	}
 	if writeEvidence {
 		discharged := 0
 		for _, o := range all {
@@ -285,6 +288,7 @@ func checkProperty(c *Ctx, p *Property, known *KnownFile, verifDir string, write
 				"exhaustive":         false,
 				"broken":             broken,
 				"vacuous":            vacuous,
+				"sensitivity":        sensitivity,
 				"deciding_technique": "static analysis of the type-checked program (go/types, go/ssa, dominators, def-use); no repository code is executed",
 			},
 			"assumptions": p.Assumptions,
